@@ -55,6 +55,12 @@ CLAIMED = {
         "allow-listed stdlib/crc24q callees do not panic; API preconditions (non-nil receivers/channel); lengths < 2^28",
         "DESIGN.md 4.7",
     ),
+    "C08": (
+        "static dimensional/fixed-point typing of the formula methods over SSA (unit, binary exponent, decimal exponent, sign, bit ranges for |), sentinel constants against the layout widths, zero-result guards, numeric constants, frequency-table partition over all signal ids",
+        "Decides for all field values that each formula has the standard's scale/unit/sign and that invalid markers are handled as stated; floating-point rounding is not computed.",
+        "field units from the oracle (RTCM DF definitions); documented frequency table taken as given",
+        "DESIGN.md 4.8",
+    ),
     "C09": (
         "static concurrency-structure analysis: channel close-site ownership, single-sender, fan-out path rule, completion-on-close dominance, termination chain, go-operand confinement, Kahn-determinism effect check",
         "Decides the ownership/ordering/completion/confinement discipline that makes the pipeline schedule-independent (all schedules, all chunkings): one closer per channel, one sender per channel, synchronous in-order fan-out of the received value to every non-nil consumer, return only on closed channel, no shared mutable state. Does not execute schedules.",
